@@ -166,7 +166,8 @@ Definition order_by {A} (names : list string) (m : list (string * A)) : list (st
 Inductive auth :=
 | ANone
 | AApiKey (inn name value : string)   (* in: "header" | "cookie" *)
-| ABasic (user password : string).
+| ABasic (user password : string)
+| AClientCred (url id secret : string) (scopes : list string).   (* oauth2_client_credentials, token cache off *)
 
 Record ep := { e_url : tpl; e_method : string; e_headers : list (string * tpl); e_auth : auth }.
 
@@ -186,6 +187,8 @@ Record inst := {
   i_up : list string;                              (* forward_response_headers_to_upstream *)
   i_payload : option tpl; i_values : list (string * tpl); i_ttl : option Z;
   i_scopes : list string;                          (* assertions.scopes (exact matcher) *)
+  i_aud : list string;                             (* assertions.audience ([] = not asserted) *)
+  i_session : bool;                                (* generic authenticator: session_lifespan {active: "active"} configured *)
   i_exprs : list expr }.
 
 Definition ttl_val (i : inst) : Z :=
@@ -243,7 +246,8 @@ Record sent := {
   s_auth : string;        (* "basic:user:password" or "" *)
   s_body : string }.
 
-Record result := { rs_sent : sent; rs_sub : string; rs_scopes : list string }.
+(** [rs_aud]: audience of an introspected token; [rs_active]: the `active` flag of a session *)
+Record result := { rs_sent : sent; rs_sub : string; rs_scopes : list string; rs_aud : list string; rs_active : bool }.
 
 Inductive outcome := OAllow (r : result) | ODeny | OErr.
 
@@ -285,8 +289,18 @@ Definition auth_headers (a : auth) : alist :=
   match a with AApiKey "header" n v => [(n, v)] | _ => [] end.
 Definition auth_cookies (a : auth) : alist :=
   match a with AApiKey "cookie" n v => [(n, v)] | _ => [] end.
+(** the access token the harness's token endpoint issues to a client: a function of the
+    client it authenticated, the scope it was asked for and the URL it was asked at *)
+Definition cc_token_text (url id secret : string) (scopes : list string) : string :=
+  ("tok:" ++ id ++ ":" ++ secret ++ ":" ++ join " " scopes ++ ":" ++ url)%string.
+
+(** the Authorization header as the echo server reports it *)
 Definition auth_basic (a : auth) : string :=
-  match a with ABasic u p => ("basic:" ++ u ++ ":" ++ p)%string | _ => "" end.
+  match a with
+  | ABasic u p => ("basic:" ++ u ++ ":" ++ p)%string
+  | AClientCred url id secret scopes => ("Bearer " ++ cc_token_text url id secret scopes)%string
+  | _ => ""
+  end.
 
 Definition method_of (e : ep) : string := if String.eqb (e_method e) "" then "POST" else e_method e.
 
@@ -349,13 +363,12 @@ Definition mk_sent (i : inst) (q : reqdata) : option sent :=
 
 (* ------------------------------------------------------------------ the remote systems of the harness *)
 
-(** [t_tok]: credential text -> (active, scopes) as known to the introspection /
+(** [t_tok]: credential text -> (active, scopes, audience) as known to the introspection /
     identity endpoints; [t_deny]: request bodies the authorization /
     contextualization endpoints refuse *)
-Record world := { t_tok : list (string * (bool * list string)); t_deny : list string }.
+Record world := { t_tok : list (string * (bool * list string * list string)); t_deny : list string }.
 
-Definition cred_info (w : world) (c : string) : bool * list string :=
-  match lookup c (t_tok w) with Some x => x | None => (false, []) end.
+Definition cred_info (w : world) (c : string) : option (bool * list string * list string) := lookup c (t_tok w).
 
 (** the credential the identity endpoint of the generic authenticator looks at *)
 Definition gen_cred (s : sent) : string := or_default "nobody" (lookup "X-Cred" (s_headers s)).
@@ -364,14 +377,22 @@ Inductive answer := Refused | Answer (r : result).
 
 Definition remote_answer (w : world) (k : kind) (cred : string) (s : sent) : answer :=
   match k with
-  | KIntro => let '(act, sc) := cred_info w cred in
-              if act then Answer {| rs_sent := s; rs_sub := cred; rs_scopes := sc |} else Refused
-  | KGen => let c := gen_cred s in
-            let '(act, sc) := cred_info w c in
-            if act then Answer {| rs_sent := s; rs_sub := c; rs_scopes := [] |} else Refused
+  | KIntro =>
+    (* the introspection endpoint: unknown and inactive tokens are reported as not active *)
+    match cred_info w cred with
+    | Some (true, sc, aud) => Answer {| rs_sent := s; rs_sub := cred; rs_scopes := sc; rs_aud := aud; rs_active := true |}
+    | _ => Refused
+    end
+  | KGen =>
+    (* the identity endpoint: 401 for an unknown session, else the session with its `active` flag *)
+    let c := gen_cred s in
+    match cred_info w c with
+    | Some (act, _, _) => Answer {| rs_sent := s; rs_sub := c; rs_scopes := []; rs_aud := []; rs_active := act |}
+    | None => Refused
+    end
   | KRemote | KCtx =>
-            if str_in (s_body s) (t_deny w) then Refused
-            else Answer {| rs_sent := s; rs_sub := ""; rs_scopes := [] |}
+    if str_in (s_body s) (t_deny w) then Refused
+    else Answer {| rs_sent := s; rs_sub := ""; rs_scopes := []; rs_aud := []; rs_active := true |}
   end.
 
 (** how the mechanism reports a refusal: inactive token -> authentication
@@ -393,9 +414,11 @@ Definition eval_expr (r : result) (e : expr) : bool :=
     introspection authenticator, expressions of the remote authorizer *)
 Definition policy_ok (i : inst) (r : result) : bool :=
   match i_kind i with
-  | KIntro => forallb (fun s => str_in s (rs_scopes r)) (i_scopes i)
+  | KIntro => forallb (fun s => str_in s (rs_scopes r)) (i_scopes i) &&
+              (is_nil (i_aud i) || existsb (fun a => str_in a (rs_aud r)) (i_aud i))
+  | KGen => negb (i_session i) || rs_active r
   | KRemote => forallb (eval_expr r) (i_exprs i)
-  | KGen | KCtx => true
+  | KCtx => true
   end.
 
 (** a fresh evaluation (no cache) and whether the remote system is called *)
@@ -413,10 +436,13 @@ Definition exec_fresh (w : world) (i : inst) (q : reqdata) : outcome * nat :=
 
 (** candidate repairs of three findings (fixes/C11-F1.diff … F3.diff); [false] = the code of the tree as it is:
     [fx1] maps are hashed in the order of their keys, [fx2] a cached introspection response is validated
-    under the assertions in force, [fx3] the remote authorizer verifies its expressions on a hit *)
-Record fixes := { fx1 : bool; fx2 : bool; fx3 : bool }.
-Definition fx_none : fixes := {| fx1 := false; fx2 := false; fx3 := false |}.
-Definition fx_all : fixes := {| fx1 := true; fx2 := true; fx3 := true |}.
+    under the assertions in force, [fx3] the remote authorizer verifies its expressions on a hit,
+    [fx10] the generic authenticator asserts the session lifespan of a cached response (fixes/C11-F10.diff) *)
+Record fixes := { fx1 : bool; fx2 : bool; fx3 : bool; fx10 : bool }.
+Definition fx_none : fixes := {| fx1 := false; fx2 := false; fx3 := false; fx10 := false |}.
+Definition fx_all : fixes := {| fx1 := true; fx2 := true; fx3 := true; fx10 := true |}.
+(** the tree as it is: F1, F2, F3 repaired, F10 open *)
+Definition fx_now : fixes := {| fx1 := true; fx2 := true; fx3 := true; fx10 := false |}.
 
 Section Keys.
   Variable fx : fixes.
@@ -434,6 +460,9 @@ Section Keys.
     | ANone => []
     | AApiKey i n v => [FX (digest [FV i; FV n; FV v])]
     | ABasic u p => [FX (digest [FV u; FV p])]
+    | AClientCred url id secret scopes =>
+      (* id, secret, url and strings.Join(scopes, ""): the same bytes as one write per scope *)
+      [FX (digest ([FV id; FV secret; FV url] ++ map FV scopes))]
     end.
 
   (** Endpoint.Hash: url, method, the headers in iteration order, the strategy's hash *)
@@ -484,7 +513,7 @@ Section Keys.
   (** what a hit returns: the stored response; after the repairs of F2 / F3 only if it
       satisfies the policy of the instance at hand *)
   Definition recheck (i : inst) (r : result) : outcome :=
-    let checked := match i_kind i with KIntro => fx2 fx | KRemote => fx3 fx | KGen | KCtx => false end in
+    let checked := match i_kind i with KIntro => fx2 fx | KRemote => fx3 fx | KGen => fx10 fx | KCtx => false end in
     if checked && negb (policy_ok i r) then ODeny else OAllow r.
 
   Definition exec_cached (w : world) (c : cache) (ho vo : list string) (i : inst) (q : reqdata) : sres * cache :=
